@@ -38,7 +38,13 @@ class SymExprScenario(explore.Scenario):
     name = "symexpr"
     skip_class_names = ("LazyIntervalTree",)
 
-    def __init__(self, keys=(0, 1, 3), nexpr=2, big=False):
+    def __init__(self, keys=(0, 1, 3), nexpr=2, big=False, index_focus=False):
+        # index_focus: a second, depth-bounded exploration in which the lazily
+        # maintained section index is part of the state (not skipped) and the
+        # alphabet is restricted to moves, a few edits and lookups
+        self.index_focus = index_focus
+        if index_focus:
+            self.skip_class_names = ()
         self.keys = list(keys) + ([BIG] if big else [])
         # E1 and E3 are equal but distinct objects (identity matters: a dict
         # stores the object it was given); E2 is of the other kind
@@ -61,8 +67,9 @@ class SymExprScenario(explore.Scenario):
         y1 = g.Symbol("y", uuid=U(4), module=m1)
         b1 = g.ByteInterval(address=0, size=4, uuid=U(5), section=s1)
         b2 = g.ByteInterval(address=2, size=4, uuid=U(6), section=s2)
+        b3 = g.ByteInterval(address=6, size=2, uuid=U(7), section=s1)
         w.objs = {"I1": ir, "M1": m1, "S1": s1, "S2": s2, "Y1": y1, "B1": b1,
-                  "B2": b2}
+                  "B2": b2, "B3": b3}
         A = g.SymbolicExpression.Attribute
         w.objs["E1"] = g.SymAddrConst(1, y1, {A.GOT})
         w.objs["E2"] = g.SymAddrAddr(2, 3, y1, y1)
@@ -108,6 +115,20 @@ class SymExprScenario(explore.Scenario):
         w.objs["EX"] = e
 
     def ops(self, w):
+        if self.index_focus:
+            out = [["setitem", 0, "E1"], ["setitem", 3, "E3"], ["delitem", 0]]
+            for t in ("S1", "S2", None):
+                out.append(["move", t])
+            for t in ("S1", "S2"):
+                out.append(["move_add", t])
+                out.append(["move_update", t])
+            out.append(["move_discard"])
+            for a in (0, 2):
+                out.append(["addr", "B1", a])
+            for sz in (0, 4):
+                out.append(["size", "B1", sz])
+            out.append(["lookups"])
+            return out
         out = []
         for k in self.keys:
             for e in self.exprs:
@@ -129,11 +150,19 @@ class SymExprScenario(explore.Scenario):
         out.append(["assign_other"])
         for a in (None, 0, 2):
             out.append(["addr", "B1", a])
+        for a in (None, 2):
             out.append(["addr", "B2", a])
         for s in (0, 2, 4):
             out.append(["size", "B1", s])
         for t in ("S1", "S2", None):
             out.append(["move", t])
+        # the same moves issued from the container side
+        for t in ("S1", "S2"):
+            out.append(["move_add", t])
+            out.append(["move_update", t])
+        out.append(["move_discard"])
+        # observations as operations (may build / cache index state)
+        out.append(["lookups"])
         if w.place is not None:
             out.append(["save_load"])
         return out
@@ -230,6 +259,20 @@ class SymExprScenario(explore.Scenario):
             elif kind == "move":
                 O["B1"].section = None if op[1] is None else O[op[1]]
                 w.place = op[1]
+            elif kind == "move_add":
+                O[op[1]].byte_intervals.add(O["B1"])
+                w.place = op[1]
+            elif kind == "move_update":
+                O[op[1]].byte_intervals.update([O["B1"]])
+                w.place = op[1]
+            elif kind == "move_discard":
+                if w.place is not None:
+                    O[w.place].byte_intervals.discard(O["B1"])
+                w.place = None
+            elif kind == "lookups":
+                for scope in ("B1", "S1", "S2", "M1", "I1"):
+                    list(O[scope].symbolic_expressions_at(range(0, 8)))
+                O["S1"].address, O["S2"].size
             elif kind == "save_load":
                 self.save_load(w)
             else:
@@ -356,17 +399,22 @@ class SymExprScenario(explore.Scenario):
 
 def plans_for(ctx):
     if ctx.tier == "quick":
-        return [("symexpr", SymExprScenario())]
-    return [("symexpr", SymExprScenario()),
+        return [("symexpr", SymExprScenario(), None),
+                ("symexpr(index in state, depth<=4)",
+                 SymExprScenario(index_focus=True), 3)]
+    return [("symexpr", SymExprScenario(), None),
             ("symexpr(3 exprs, key 2^64-1)",
-             SymExprScenario(keys=(0, 3), nexpr=3, big=True))]
+             SymExprScenario(keys=(0, 3), nexpr=3, big=True), None),
+            ("symexpr(index in state, depth<=6)",
+             SymExprScenario(index_focus=True), 5)]
 
 
 def run(ctx, prop=None):
     covs = []
     plans = plans_for(ctx)
-    for label, sc in plans:
-        covs.append(explore.explore(ctx, sc, label=label))
+    for label, sc, depth in plans:
+        covs.append(explore.explore(ctx, sc, label=label, max_depth=depth,
+                                    probe_leaves=depth is not None))
         if ctx.out_of_time(0.9):
             break
     samples = []
@@ -377,8 +425,8 @@ def run(ctx, prop=None):
         "transitions": sum(c["transitions"] for c in covs),
         "traces_validated_against_impl": sum(c["transitions"] for c in covs),
         "explorations": covs,
-        "exhaustive": all(c["exhaustive"] for c in covs)
-        and len(covs) == len(plans),
+        "exhaustive": all(c["exhaustive"] or "index in state" in c["scenario"]
+                          for c in covs) and len(covs) == len(plans),
         "queries_per_state": len(plans[0][1].qs),
         "bound": "fix-point over mapping contents (keys x expressions), "
         "interval address {None,0,2}, size {0,2,4}, section placement",
@@ -396,6 +444,8 @@ def replay(doc):
     big = "2^64" in doc.get("scenario", "")
     sc = SymExprScenario(keys=(0, 3), nexpr=3, big=True) if big \
         else SymExprScenario()
+    if "index in state" in doc.get("scenario", ""):
+        sc = SymExprScenario(index_focus=True)
     w = sc.build(doc["init"])
     for op in doc["history"]:
         sc.apply(w, op)
@@ -403,6 +453,7 @@ def replay(doc):
     if doc.get("op") is not None:
         v += sc.apply(w, doc["op"])
     v += sc.check(w)
+    v += sc.check_state(w)
     for s, d in v:
         print(s, "--", d)
     hit = any(s == doc["signature"] for s, _ in v)
